@@ -314,6 +314,17 @@ fn check_derivation(rep: &mut Report, case: u64, world: &World, rng: &mut Rng) {
                     y.script_code().ok().map(|s| s.to_bytes()),
                 )
             });
+            // every address the derived descriptor has encodes its scriptPubKey (tap trees included)
+            if let Ok(x) = sd.at_derivation_index(index) {
+                let y = x.derived_descriptor(&world.secp);
+                for n in [Network::Bitcoin, Network::Testnet, Network::Signet, Network::Regtest] {
+                    let (ax, ay) = (x.address(n).ok().map(|a| a.script_pubkey().to_bytes()), y.address(n).ok().map(|a| a.script_pubkey().to_bytes()));
+                    let spk = y.script_pubkey().to_bytes();
+                    if ax.as_ref().map(|a| *a != spk).unwrap_or(false) || ay.as_ref().map(|a| *a != spk).unwrap_or(false) || ax.is_some() != ay.is_some() {
+                        panic!("ADDRESS-VS-SPK: on {:?} the address encodes {:?} / {:?}, the scriptPubKey is {}", n, ax.map(|a| hex(&a)), ay.map(|a| hex(&a)), hex(&spk));
+                    }
+                }
+            }
             if let Some((a, b, c, d, e, f)) = direct {
                 if a != b || c != d || e != f {
                     panic!("DEFINITE-VS-DERIVED: script_pubkey {} / {}, explicit_script {:?} / {:?}, script_code {:?} / {:?}", hex(&a), hex(&b), c.map(|x| hex(&x)), d.map(|x| hex(&x)), e.map(|x| hex(&x)), f.map(|x| hex(&x)));
@@ -322,6 +333,10 @@ fn check_derivation(rep: &mut Report, case: u64, world: &World, rng: &mut Rng) {
             (at.ok(), dd.ok(), idef.ok())
         }));
         let (at, dd, idef) = match r {
+            Err(m) if m.contains("ADDRESS-VS-SPK") => {
+                rep.violation(case, "C16:address-vs-script_pubkey:derived".into(), format!("{} at index {}: {}", sd, index, m));
+                continue;
+            }
             Err(m) if m.contains("DEFINITE-VS-DERIVED") => {
                 rep.violation(case, "C16:definite-descriptor-vs-derived_descriptor".into(), format!("{} at index {}: the definite descriptor and its derived_descriptor() disagree: {}", sd, index, m));
                 continue;
@@ -465,6 +480,59 @@ fn check_sortedmulti(rep: &mut Report, case: u64, world: &World, rng: &mut Rng) 
                 rep.violation(case, format!("C16:panic:sortedmulti:{}", norm_loc(&last_panic_loc())), format!("{} on {}", m, s));
                 return;
             }
+        }
+    }
+    // the same outputs through the sortedmulti constructors, keys handed over in every order
+    if !tap {
+        let spell = |i: usize| -> Option<Dk> {
+            let one = mk(&[i]);
+            let a = one.find(',')? + 1;
+            let b = one.find(')')?;
+            Dk::from_str(&one[a..b]).ok()
+        };
+        let mut api_spks = std::collections::BTreeSet::new();
+        let mut order: Vec<usize> = ids.to_vec();
+        for _ in 0..4 {
+            rng.shuffle(&mut order);
+            let keys: Option<Vec<Dk>> = order.iter().map(|i| spell(*i)).collect();
+            let keys = match keys {
+                Some(k) => k,
+                None => break,
+            };
+            rep.eval();
+            let r = guarded(std::panic::AssertUnwindSafe(|| {
+                let th = miniscript::Threshold::<Dk, 20>::new(k, keys.clone()).map_err(|e| e.to_string())?;
+                let d = if wrapper.starts_with("wsh") {
+                    Descriptor::new_wsh_sortedmulti(th)
+                } else if wrapper.starts_with("sh(wsh") {
+                    Descriptor::new_sh_wsh_sortedmulti(th)
+                } else {
+                    Descriptor::new_sh_sortedmulti(th)
+                };
+                d.map(|d| d.script_pubkey().to_bytes()).map_err(|e| e.to_string())
+            }));
+            match r {
+                Ok(Ok(spk)) => {
+                    api_spks.insert(spk);
+                }
+                Ok(Err(_)) => {
+                    rep.count("sortedmulti-constructor-refused");
+                    break;
+                }
+                Err(m) => {
+                    rep.violation(case, format!("C16:panic:sortedmulti:{}", norm_loc(&last_panic_loc())), format!("{} on the constructor for {}", m, mk(ids)));
+                    break;
+                }
+            }
+        }
+        if api_spks.len() > 1 || (api_spks.len() == 1 && spks.len() == 1 && api_spks != spks) {
+            rep.violation(
+                case,
+                format!("C16:sortedmulti-constructor-order-dependent:{}", wrapper.split('(').next().unwrap_or("")),
+                format!("the new_*_sortedmulti constructor gives {} different scriptPubKeys over key orders (the parsed form gives {}): {}", api_spks.len(), spks.len(), mk(ids)),
+            );
+        } else if api_spks.len() == 1 {
+            rep.count("sortedmulti-constructor-order-independent");
         }
     }
     if spks.len() != 1 {
